@@ -60,6 +60,11 @@ func runC16(c *config) {
 		add(&tyTree{kind: 'F', children: []*tyTree{{kind: 'v'}, lit}})
 		// as the return type of a function type, by value, and that function type behind a pointer (where the
 		// text of the function type decides) and one level deeper
+		// behind a pointer in a non-zero address space (the printer has a branch of its own for it), alone and nested
+		add(&tyTree{kind: 'p', n: 1, children: []*tyTree{named}})
+		add(&tyTree{kind: 'p', n: 1, children: []*tyTree{lit}})
+		add(&tyTree{kind: 'S', children: []*tyTree{{kind: 'i', n: 8}, {kind: 'p', n: 3, children: []*tyTree{named}}}})
+		add(&tyTree{kind: 'S', children: []*tyTree{{kind: 'i', n: 8}, {kind: 'p', n: 3, children: []*tyTree{lit}}}})
 		fnN := &tyTree{kind: 'F', children: []*tyTree{named}}
 		fnL := &tyTree{kind: 'F', children: []*tyTree{lit}}
 		add(fnN)
